@@ -23,6 +23,8 @@ def run(ctx):
     common.align_jobs(ctx, jobs, lambda j: j[2] in ("asm", "c64") and j[1][2] == 3)
     # long one-shot KDF outputs (the declared length is the output length): 128 KiB+1 .. 16 MiB+3, and 2^29 bytes (the limit of the declared-length field; thorough: also 2^29-1 and 2^29+9)
     common.mid_lengths(ctx, ["kdf-out:0", "kdf-out:1"], ("asm", "c64", "c32", "dxor", "generic") if ctx.thorough else ("asm", "c32"))
+    # long secondary parameters (salt, password, context string) of 128 KiB+1 .. 16 MiB+3 bytes: more than a thread stack holds
+    common.mid_lengths(ctx, ["pbkdf2-salt:0", "pbkdf2-salt:1", "pbkdf2-pw:0", "pbkdf2-pw:1", "hkdf-salt:0", "hkdf-salt:1", "hkdf-info:0", "hkdf-info:1"], ("asm", "c32") if ctx.thorough else ("asm",))
     lib = build.build_lib("asm", opt="-O2")
     hexe = build.build_prog("huge", ["harness/huge.c", "harness/sysrand.c", "ref/ref.c"], lib, opt="-O2")
     big = [[w, L] for w in ("kdf-out:0", "kdf-out:1") for L in ((1 << 29) - 1, 1 << 29, (1 << 29) + 9)] if ctx.thorough else [["kdf-out:0", 1 << 29], ["kdf-out:1", 1 << 29]]
